@@ -407,7 +407,14 @@ func (t *Translator) call(st *State, in *ssa.Call) {
 		t.curCall = t.callOrdinal(in)
 	}
 	if t.parent == nil && t.spec != nil && len(t.spec.Before) > 0 {
-		if n := t.callOrdinal(in); n > 0 {
+		if n := t.callOrdinal(in); n > 0 && len(t.spec.Before[n]) > 0 {
+			{
+				npc := t.vc.newPC("c", st.pc)
+				t.vc.assume(npc, st.pc)
+				st.pc = npc
+				st.pcHasOb = false
+			}
+			firstAssertPC := st.pc
 			for _, cl := range t.spec.Before[n] {
 				var li *loopInfo
 				if ls := t.inLoops[in.Block()]; len(ls) > 0 {
@@ -421,6 +428,16 @@ func (t *Translator) call(st *State, in *ssa.Call) {
 				}
 				f, _ := env.Eval(cl.E)
 				t.oblige(st, fmt.Sprintf("assert.before%d", n), cl.Label, cl.Tags, f, t.w.pos(in.Pos()), cl.Src)
+			}
+			if t.spec.Cuts[-n] {
+				t.implicitFrameCheck(st, fmt.Sprintf("cutb%d", n), t.w.pos(in.Pos()))
+				npc := t.vc.newPC("w", st.pc)
+				t.vc.cutAt[npc] = firstAssertPC
+				t.vc.assume(npc, st.pc)
+				st.pc = npc
+				st.pcHasOb = false
+				t.implicitFrameAssume(st)
+				t.assume(st, "(>= "+st.heap.next+" "+t.entry.heap.next+")")
 			}
 		}
 	}
